@@ -7,6 +7,8 @@ package query
 //verif:harness VerifC01Interrupted mode=bv tier=quick split=6
 //verif:setup VerifC01FormatsSetup
 //verif:harness VerifC01InterruptedFormats mode=bv tier=quick split=6
+//verif:setup VerifC01KindsSetup
+//verif:harness VerifC01ChangeKinds mode=bv tier=quick split=6
 
 import (
 	"github.com/mithrandie/csvq/lib/parser"
@@ -283,4 +285,136 @@ func VerifC01InterruptedFormats() {
 	verifAssert("no control files remain", verifFileList() == name)
 	verifObserveBool("failed", err != nil)
 	verifReach("end")
+}
+
+// Every kind of statement that changes a table, on a temporary table and on a table file, followed by
+// (A) ROLLBACK, (B) COMMIT, a further change and ROLLBACK, (C) COMMIT, a further change and an error that
+// ends the procedure: the table (header and cells; for the file also its bytes after the procedure) is as
+// it was at the most recent COMMIT - whichever kind of change made it differ from its restore point.
+var verifC01KindSrc = []string{
+	"insert into %T values (3,'c')",
+	"update %T set c2 = 'z' where c1 = 1",
+	"delete from %T where c1 = 1",
+	"replace into %T using (c1) values (1,'r'), (4,'s')",
+	"alter table %T add c3 default 'd'",
+	"alter table %T drop c2",
+	"alter table %T rename c2 to cx",
+	"alter table %T add (c0, c00) first",
+	"insert into %T select c1 + 10, c2 from %T",
+}
+var verifC01KindFile = []string{
+	"c1,c2\n1,a\n2,b\n3,c\n", "c1,c2\n1,z\n2,b\n", "c1,c2\n2,b\n", "c1,c2\n1,r\n2,b\n4,s\n", "c1,c2,c3\n1,a,d\n2,b,d\n",
+	"c1\n1\n2\n", "c1,cx\n1,a\n2,b\n", "c0,c00,c1,c2\n,,1,a\n,,2,b\n", "c1,c2\n1,a\n2,b\n11,a\n12,b\n",
+}
+var verifC01KindStmt [2][][]parser.Statement
+var verifC01KindSel, verifC01KindMore [2][]parser.Statement
+var verifC01KindCommit, verifC01KindRollback, verifC01KindFail []parser.Statement
+
+func VerifC01KindsSetup() {
+	for ti, tn := range []string{"tt", "`k.csv`"} {
+		for _, src := range verifC01KindSrc {
+			verifC01KindStmt[ti] = append(verifC01KindStmt[ti], verifParse(verifSubst(src, tn)))
+		}
+		verifC01KindSel[ti] = verifParse("select * from " + tn)
+		verifC01KindMore[ti] = verifParse("delete from " + tn + " where c1 = 2")
+	}
+	verifC01KindCommit = verifParse("commit")
+	verifC01KindRollback = verifParse("rollback")
+	verifC01KindFail = verifParse("select 1 / 0")
+}
+
+func verifSubst(src, name string) string {
+	out := ""
+	for i := 0; i < len(src); i++ {
+		if src[i] == '%' && i+1 < len(src) && src[i+1] == 'T' {
+			out += name
+			i++
+		} else {
+			out += string(src[i])
+		}
+	}
+	return out
+}
+
+// verifTableText: column names and cells of the table as the following statements see it.
+func verifTableText(proc *Processor, sel []parser.Statement) string {
+	proc.Tx.SelectedViews = nil
+	_, err := proc.Execute(ContextForStoringResults(verifCtx()), sel)
+	if err != nil || len(proc.Tx.SelectedViews) != 1 {
+		return "unreadable"
+	}
+	v := proc.Tx.SelectedViews[0]
+	out := ""
+	for _, h := range v.Header {
+		out += h.Column + ","
+	}
+	for _, r := range v.RecordSet {
+		out += "/"
+		for _, c := range r {
+			// a cell committed to a file comes back as text: compare what is spelled, not the type
+			if t, ok := c[0].(*value.String); ok {
+				out += t.Raw() + ","
+			} else {
+				out += c[0].String() + ","
+			}
+		}
+	}
+	return out
+}
+
+func VerifC01ChangeKinds() {
+	const old = "c1,c2\n1,a\n2,b\n"
+	verifFileWrite("k.csv", old)
+	tx := verifNewTx()
+	tx.Flags.Quiet = true
+	// the statements of the procedure are handed over one by one: no automatic COMMIT after each
+	proc := NewProcessor(tx)
+	ti := verifChoice("file", 2)
+	if ti == 0 {
+		verifTempTable(proc.ReferenceScope, "tt", []string{"c1", "c2"}, [][]value.Primary{
+			{value.NewInteger(1), value.NewString("a")}, {value.NewInteger(2), value.NewString("b")}})
+	}
+	kind := verifChoice("kind", len(verifC01KindSrc))
+	pattern := verifChoice("pattern", 3)
+	declared := verifTableText(proc, verifC01KindSel[ti])
+	_, err := proc.Execute(verifCtx(), verifC01KindStmt[ti][kind])
+	verifAssert("the change succeeds", err == nil)
+	changed := verifTableText(proc, verifC01KindSel[ti])
+	verifAssert("the change is visible", changed != declared && changed != "unreadable")
+	want, wantFile := declared, old
+	if pattern == 0 {
+		_, err = proc.Execute(verifCtx(), verifC01KindRollback)
+		verifAssert("ROLLBACK succeeds", err == nil)
+	} else {
+		_, err = proc.Execute(verifCtx(), verifC01KindCommit)
+		verifAssert("COMMIT succeeds", err == nil)
+		_, err = proc.Execute(verifCtx(), verifC01KindMore[ti])
+		verifAssert("the further change succeeds", err == nil)
+		verifAssert("the further change is visible", verifTableText(proc, verifC01KindSel[ti]) != changed)
+		want, wantFile = changed, verifC01KindFile[kind]
+		if pattern == 1 {
+			_, err = proc.Execute(verifCtx(), verifC01KindRollback)
+			verifAssert("ROLLBACK succeeds", err == nil)
+		} else {
+			_, err = proc.Execute(verifCtx(), verifC01KindFail)
+			verifAssert("the failing statement fails", err != nil)
+			e1 := proc.AutoRollback()
+			verifAssert("the rollback at the end of the failed procedure succeeds", e1 == nil)
+		}
+	}
+	final := verifTableText(proc, verifC01KindSel[ti])
+	verifObserve("final-len", int64(len(final)))
+	verifAssert("the table is as at the most recent COMMIT (or start)", final == want)
+	e2 := proc.ReleaseResourcesWithErrors()
+	verifAssert("release succeeds", e2 == nil)
+	verifAssert("the file holds the last committed state", verifFileRead("k.csv") == wantFileOr(ti, wantFile, old))
+	verifAssert("no control files remain", verifFileList() == "k.csv")
+	verifReach("end")
+}
+
+func wantFileOr(ti int, wantFile, old string) string {
+	if ti == 0 {
+		return old
+	}
+	return wantFile
 }
